@@ -30,6 +30,8 @@ import (
 
 	"github.com/rs/zerolog"
 
+	"github.com/dadrus/heimdall/internal/cache"
+	"github.com/dadrus/heimdall/internal/cache/memory"
 	"github.com/dadrus/heimdall/internal/config"
 	"github.com/dadrus/heimdall/internal/handler/requestcontext"
 	"github.com/dadrus/heimdall/internal/heimdall"
@@ -103,6 +105,7 @@ type protoDef struct {
 	Trust       bool
 	SubjectID   string
 	SubjectAttr string
+	Tenant      string // form of a key-set URL templated with the token issuer: path | query | pathquery | queryfixed
 }
 
 type overDef struct {
@@ -116,6 +119,7 @@ type overDef struct {
 type authInst struct {
 	Name      string         `json:"name"`
 	Set       string         `json:"key_set"`
+	Tenant    string         `json:"key_set_url_templated_with_issuer,omitempty"`
 	Proto     map[string]any `json:"prototype_config"`
 	Override  map[string]any `json:"rule_level_config,omitempty"`
 	Spec      refSpec        `json:"effective_expectation"`
@@ -153,6 +157,32 @@ const (
 	issA, issB, issC = "https://issuer-a.example", "https://issuer-b.example/realm", "https://issuer-c.example"
 )
 
+// issuers ("tenants") with a key set of their own behind a key-set URL templated with the token issuer
+const (
+	tenA, tenB, tenC = "tenant-a", "tenant-b", "https://tenant-c.example/realm"
+	byIssuer         = "selected by token issuer"
+)
+
+var (
+	tenantSets = map[string]string{tenA: "ten-a", tenB: "ten-b", tenC: "ten-c"}
+	tenantAlgs = []string{"ES256", "ES384", "ES512", "PS256", "EdDSA"}
+)
+
+// tenantURL is the configured (templated) key-set URL of the given form.
+func tenantURL(base, form string) string {
+	const iss = "{{ urlenc .TokenIssuer }}"
+	switch form {
+	case "path":
+		return base + "/tenants/path/" + iss
+	case "query":
+		return base + "/tenants/query?tenant=" + iss
+	case "pathquery":
+		return base + "/tenants/pathquery/" + iss + "/keys?issuer=" + iss
+	default: // queryfixed: the issuer is one of several query parameters
+		return base + "/tenants/queryfixed?format=jwks&tenant=" + iss + "&v=2"
+	}
+}
+
 func boolp(b bool) *bool { return &b }
 
 func protoDefs() []protoDef {
@@ -175,6 +205,10 @@ func protoDefs() []protoDef {
 		{Name: "p-meta-iss", Set: "main", Meta: true, A: assertDef{Issuers: []string{issC}, Allowed: asymAlgs}},
 		{Name: "p-zero-leeway", Set: "main", A: assertDef{Issuers: []string{issA}, Allowed: []string{"ES256", "PS256", "EdDSA"}, Leeway: "0s"}},
 		{Name: "p-subject", Set: "main", SubjectID: "identity.id", SubjectAttr: "identity", A: assertDef{Issuers: []string{issA}}},
+		{Name: "t-path", Set: byIssuer, Tenant: "path", A: assertDef{Issuers: []string{tenA, tenB, tenC}, Allowed: tenantAlgs}},
+		{Name: "t-query", Set: byIssuer, Tenant: "query", A: assertDef{Issuers: []string{tenA, tenB, tenC}, Allowed: tenantAlgs}},
+		{Name: "t-pathquery", Set: byIssuer, Tenant: "pathquery", A: assertDef{Issuers: []string{tenB, tenA}, Allowed: tenantAlgs, Audience: []string{"aud-1"}}},
+		{Name: "t-queryfixed", Set: byIssuer, Tenant: "queryfixed", A: assertDef{Issuers: []string{tenC, tenA, tenB}, Allowed: tenantAlgs, Scopes: []string{"read"}}},
 	}
 }
 
@@ -195,6 +229,9 @@ func overDefs() []overDef {
 		{Name: "o3-leeway0", Proto: "p-hier", A: assertDef{Leeway: "0s"}},
 		{Name: "o4-all", Proto: "p-wild", A: assertDef{Issuers: []string{issA}, Audience: []string{"aud-3"}, Scopes: []string{"x"}, Allowed: []string{"RS384", "ES512"}, Leeway: "15s"}},
 		{Name: "o5-meta-iss", Proto: "p-meta", A: assertDef{Issuers: []string{issB}}},
+		{Name: "ot-nocache", Proto: "t-query", TTL: "0s"},
+		{Name: "ot-ttl-iss", Proto: "t-query", TTL: "5m", A: assertDef{Issuers: []string{tenC, tenB}}},
+		{Name: "ot-path-iss", Proto: "t-path", A: assertDef{Issuers: []string{tenA, tenC}, Audience: []string{"aud-2"}}},
 	}
 }
 
@@ -212,6 +249,8 @@ type world struct {
 	metaHits  atomic.Int64
 	evilCerts map[string][]byte
 	insts     []*authInst
+	tinsts    []*authInst // instances whose key-set URL is templated with the token issuer (own job kind)
+	tenHits   atomic.Int64
 	app       *app.App
 
 	mu    sync.Mutex
@@ -247,6 +286,41 @@ func (w *world) serve(rw http.ResponseWriter, req *http.Request) {
 			rw.Header().Set("Content-Type", "application/json")
 			_, _ = rw.Write(s.doc)
 		}
+	case strings.HasPrefix(req.URL.Path, "/tenants/"):
+		// one key set per issuer; the issuer is named in the path, in the query or in both (then they have to agree)
+		w.tenHits.Add(1)
+		var iss []string
+		segs := strings.Split(strings.TrimPrefix(req.URL.EscapedPath(), "/tenants/"), "/")
+		q := req.URL.Query()
+		switch segs[0] {
+		case "path":
+			if len(segs) == 2 {
+				iss = segs[1:]
+			}
+		case "query", "queryfixed":
+			iss = q["tenant"]
+		case "pathquery":
+			if len(segs) == 3 && segs[2] == "keys" {
+				iss = []string{segs[1], url.QueryEscape(q.Get("issuer"))}
+			}
+		}
+		var s *keySet
+		for i, v := range iss {
+			if segs[0] == "path" || segs[0] == "pathquery" {
+				v, _ = url.QueryUnescape(v)
+			}
+			if o := w.sets[tenantSets[v]]; i == 0 {
+				s = o
+			} else if o != s {
+				s = nil
+			}
+		}
+		if s == nil || len(iss) == 0 || (segs[0] == "queryfixed" && (q.Get("format") != "jwks" || q.Get("v") != "2")) {
+			http.NotFound(rw, req)
+			return
+		}
+		rw.Header().Set("Content-Type", "application/json")
+		_, _ = rw.Write(s.doc)
 	case strings.HasPrefix(req.URL.Path, "/evil/"):
 		w.evilHits.Add(1)
 		rw.Header().Set("Content-Type", "application/json")
@@ -296,6 +370,8 @@ func (w *world) buildInstances(trustFile string) error {
 		c := map[string]any{}
 		if p.Meta {
 			c["metadata_endpoint"] = map[string]any{"url": w.srvURL + "/.well-known/oauth-authorization-server"}
+		} else if p.Tenant != "" {
+			c["jwks_endpoint"] = map[string]any{"url": tenantURL(w.srvURL, p.Tenant)}
 		} else {
 			c["jwks_endpoint"] = map[string]any{"url": w.srvURL + "/jwks/" + p.Set}
 		}
@@ -313,8 +389,13 @@ func (w *world) buildInstances(trustFile string) error {
 		}
 		mechs = append(mechs, config.Mechanism{ID: p.Name, Type: "jwt", Config: c})
 		spec := w.specOf(p, p.A)
-		w.insts = append(w.insts, &authInst{Name: p.Name, Set: p.Set, Proto: c, Spec: spec, ProtoSpec: spec,
-			ZeroLee: p.A.Leeway == "0s", Fallback: 10 * time.Second})
+		inst := &authInst{Name: p.Name, Set: p.Set, Tenant: p.Tenant, Proto: c, Spec: spec, ProtoSpec: spec,
+			ZeroLee: p.A.Leeway == "0s", Fallback: 10 * time.Second}
+		if p.Tenant != "" {
+			w.tinsts = append(w.tinsts, inst)
+		} else {
+			w.insts = append(w.insts, inst)
+		}
 	}
 	a, err := app.New(app.Options{Service: app.SvcNone, Mutate: func(c *config.Configuration) {
 		c.Prototypes.Authenticators = append(c.Prototypes.Authenticators, mechs...)
@@ -323,7 +404,7 @@ func (w *world) buildInstances(trustFile string) error {
 		return fmt.Errorf("app: %w", err)
 	}
 	w.app = a
-	for _, inst := range w.insts {
+	for _, inst := range append(append([]*authInst{}, w.insts...), w.tinsts...) {
 		if inst.a, err = a.MF.CreateAuthenticator("", inst.Name, nil); err != nil {
 			return fmt.Errorf("prototype %s: %w", inst.Name, err)
 		}
@@ -339,12 +420,12 @@ func (w *world) buildInstances(trustFile string) error {
 		}
 		eff := o.A.over(p.A)
 		var protoInst *authInst
-		for _, i := range w.insts {
+		for _, i := range append(append([]*authInst{}, w.insts...), w.tinsts...) {
 			if i.Name == o.Proto {
 				protoInst = i
 			}
 		}
-		inst := &authInst{Name: o.Name + "@" + o.Proto, Set: p.Set, Proto: protoInst.Proto, Override: oc, Spec: w.specOf(p, eff),
+		inst := &authInst{Name: o.Name + "@" + o.Proto, Set: p.Set, Tenant: p.Tenant, Proto: protoInst.Proto, Override: oc, Spec: w.specOf(p, eff),
 			ProtoSpec: protoInst.Spec, ZeroLee: eff.Leeway == "0s", Fallback: 10 * time.Second}
 		if o.A.Leeway == "0s" && p.A.Leeway != "" && p.A.Leeway != "0s" {
 			inst.Fallback = leewayOf(p.A.Leeway)
@@ -355,9 +436,25 @@ func (w *world) buildInstances(trustFile string) error {
 		if o.Empty && inst.a != protoInst.a {
 			w.r.Count("empty_override_returned_new_instance", 1)
 		}
-		w.insts = append(w.insts, inst)
+		if p.Tenant != "" {
+			w.tinsts = append(w.tinsts, inst)
+		} else {
+			w.insts = append(w.insts, inst)
+		}
 	}
 	return nil
+}
+
+// tenantSetFor returns the key set behind the key-set URL rendered for the token: the one of the issuer named by the
+// (unverified) iss claim; no such issuer: the endpoint answers 404.
+func (w *world) tenantSetFor(token string) *keySet {
+	_, pl := decodedParts(token)
+	if p, ok := decodeObject([]byte(pl)); ok {
+		if iss, ok := p["iss"].(string); ok && tenantSets[iss] != "" {
+			return w.sets[tenantSets[iss]]
+		}
+	}
+	return w.sets["ten-unknown"]
 }
 
 func (w *world) certOK(spec *refSpec) func(*keyEntry) bool {
@@ -373,7 +470,27 @@ func (w *world) certOK(spec *refSpec) func(*keyEntry) bool {
 
 var nopCtx = zerolog.Nop().WithContext(context.Background())
 
-func newCtx(tc *tokCase) heimdall.Context {
+// seqState is the state shared by the tokens of one sequence: heimdall's real in-memory cache, put into the context of
+// every request of the sequence (as the cache middleware does), and what has been presented so far.
+type seqState struct {
+	cch  cache.Cache
+	hist []string
+}
+
+func newSeq() (*seqState, error) {
+	c, err := memory.NewCache(nil, nil, nil)
+	if err != nil {
+		return nil, err
+	}
+	if err = c.Start(context.Background()); err != nil {
+		return nil, err
+	}
+	return &seqState{cch: c}, nil
+}
+
+func (s *seqState) stop() { _ = s.cch.Stop(context.Background()) }
+
+func newCtx(tc *tokCase, sq *seqState) heimdall.Context {
 	u := &url.URL{Scheme: "http", Host: "svc.test", Path: "/api/thing"}
 	req := &http.Request{Method: http.MethodPost, URL: u, Host: "svc.test", Header: http.Header{}, RemoteAddr: "192.0.2.10:40000",
 		Proto: "HTTP/1.1", ProtoMajor: 1, ProtoMinor: 1}
@@ -388,6 +505,9 @@ func newCtx(tc *tokCase) heimdall.Context {
 		req.Body = io.NopCloser(strings.NewReader("access_token=" + url.QueryEscape(tc.Token)))
 	default:
 		req.Header["Authorization"] = []string{"Bearer " + tc.Token}
+	}
+	if sq != nil {
+		return requestcontext.New(req.WithContext(cache.WithContext(nopCtx, sq.cch)))
 	}
 	return requestcontext.New(req.WithContext(nopCtx))
 }
@@ -425,6 +545,8 @@ type c05Case struct {
 	RefKey     string          `json:"reference_verifying_key,omitempty"`
 	Observed   string          `json:"observed"`
 	Subject    any             `json:"observed_subject,omitempty"`
+	KeyCache   string          `json:"key_cache,omitempty"`
+	Before     []string        `json:"presented_before_with_the_same_cache,omitempty"`
 }
 
 type stats struct {
@@ -506,18 +628,27 @@ func decodedParts(tok string) (string, string) {
 	return out[0], out[1]
 }
 
+const (
+	two63        = 9223372036854775808.0 // first value above the int64 range
+	zeroTimeUnix = -62135596800.0        // unix seconds of the zero time.Time; time.Time holds unix seconds below 2^63+zeroTimeUnix
+)
+
 // soundnessSignature classifies "accepted although the reference rejects" narrowly.
 func (w *world) soundnessSignature(inst *authInst, ks *keySet, tc *tokCase, ref refResult, t0, t1 time.Time) (string, string) {
 	_, pl := decodedParts(tc.Token)
 	if p, ok := decodeObject([]byte(pl)); ok {
 		switch ref.Why {
 		case "expired":
-			if exp, present, ok := numClaim(p["exp"]); present && ok && exp <= 0 {
+			if exp, present, ok := numClaim(p["exp"]); present && ok && exp == zeroTimeUnix {
+				return "exp-at-zero-time-accepted", ref.Why
+			} else if present && ok && exp <= 0 {
 				return "nonpositive-exp-accepted", ref.Why
 			}
 		case "not yet valid":
-			if nbf, present, ok := numClaim(p["nbf"]); present && ok && nbf >= 9.2e18 {
+			if nbf, present, ok := numClaim(p["nbf"]); present && ok && nbf >= two63 {
 				return "nbf-beyond-int64-accepted", ref.Why
+			} else if present && ok && nbf >= two63+zeroTimeUnix-1024 {
+				return "nbf-beyond-time-range-accepted", ref.Why
 			}
 		}
 		if (ref.Why == "expired" || ref.Why == "not yet valid") && inst.ZeroLee {
@@ -532,12 +663,27 @@ func (w *world) soundnessSignature(inst *authInst, ks *keySet, tc *tokCase, ref 
 	switch why {
 	case "signature does not verify", "declared key alg differs from token alg", "key certificate not valid", "no key for kid":
 		why = refDiagnose(&inst.Spec, ks, w.certOK(&inst.Spec), tc.Token, why)
+		if inst.Tenant != "" && why == "signature does not verify with any published key" {
+			for _, iss := range sortedIssuers() {
+				if o := w.sets[tenantSets[iss]]; o != ks && refDiagnose(&inst.Spec, o, w.certOK(&inst.Spec), tc.Token, "") != why {
+					return "accepted-key-of-another-issuer", "signature verifies with a key of the key set of issuer " + iss + " only, not with one of the token's issuer"
+				}
+			}
+		}
 	}
 	return "accepted-" + slug(why), why
 }
 
 func (w *world) runOne(st *stats, inst *authInst, ks *keySet, tc *tokCase) (refV verdict, accepted bool) {
-	ctx := newCtx(tc)
+	return w.exec(st, inst, ks, tc, nil)
+}
+
+// exec presents one token; sq != nil: as the next request of a sequence sharing a key cache.
+func (w *world) exec(st *stats, inst *authInst, ks *keySet, tc *tokCase, sq *seqState) (refV verdict, accepted bool) {
+	if inst.Tenant != "" {
+		ks = w.tenantSetFor(tc.Token)
+	}
+	ctx := newCtx(tc, sq)
 	var (
 		sub      *subject.Subject
 		err      error
@@ -595,7 +741,18 @@ func (w *world) runOne(st *stats, inst *authInst, ks *keySet, tc *tokCase) (refV
 		if sub != nil {
 			c.Subject = map[string]any{"ID": sub.ID, "Attributes": sub.Attributes}
 		}
+		if sq != nil {
+			c.KeyCache = "heimdall's in-memory cache, fresh for this sequence"
+			c.Before = sq.hist[max(0, len(sq.hist)-12):]
+		}
 		return c
+	}
+	if sq != nil {
+		defer func() {
+			_, pl := decodedParts(tc.Token)
+			p, _ := decodeObject([]byte(pl))
+			sq.hist = append(sq.hist, fmt.Sprintf("%s | %s | iss=%v signed by %s -> %s", tc.Class, tc.Note, p["iss"], tc.SignedBy, obs))
+		}()
 	}
 	if panicked != nil {
 		st.counters["execute_panicked"]++
@@ -651,10 +808,21 @@ func (w *world) runOne(st *stats, inst *authInst, ks *keySet, tc *tokCase) (refV
 	return refV, accepted
 }
 
+func sortedIssuers() []string {
+	out := make([]string, 0, len(tenantSets))
+	for iss := range tenantSets {
+		out = append(out, iss)
+	}
+	sort.Strings(out)
+	return out
+}
+
 // --- jobs ----------------------------------------------------------------------------------------
 
 type job struct {
-	kind    string // catalogue | mutation
+	kind    string // catalogue | mutation | tenant
+	iss     string // tenant: issuer owning the signing key
+	full    bool   // tenant: the catalogue follows the cross-issuer sequence (same cache)
 	inst    int
 	key     int // index into signer list of the instance
 	round   int
@@ -671,7 +839,103 @@ func (w *world) signers(inst *authInst) []*keyEntry {
 	return ks.Keys
 }
 
+// tenantJob: the key-set URL of the instance is rendered with the token issuer, the issuers publish different keys under
+// the same key ids, and all requests of the job share one (initially empty) key cache. Tokens naming another trusted
+// issuer but signed with this issuer's key are presented before and after genuine tokens made the cache hold keys.
+func (w *world) tenantJob(idx int, j job) {
+	inst := w.tinsts[j.inst]
+	ks := w.sets[tenantSets[j.iss]]
+	k := ks.Keys[j.key]
+	rng := w.r.Stream(fmt.Sprintf("job-%d", idx))
+	g := &gen{rng: rng, inst: inst, ks: ks, w: w, issuer: j.iss}
+	st := newStats()
+	defer func() {
+		w.r.AddHashes(st.n, nil, st.nontriv)
+		w.mu.Lock()
+		w.stats.merge(st)
+		w.mu.Unlock()
+	}()
+	sq, err := newSeq()
+	if err != nil {
+		st.counters["tenant_sequence_cache_not_created"]++
+		return
+	}
+	defer sq.stop()
+	claims := g.claims(true)
+	tok := func(signer *keyEntry, iss, kid string) (string, string) {
+		c := cloneClaims(claims)
+		c["iss"] = iss
+		c["sub"] = fmt.Sprintf("user-%d", rng.IntN(100000))
+		hdrAlg, signAlg := g.algsFor(signer)
+		t, err := mkToken(hdrFor(hdrAlg, kid, kid != ""), mustJSON(c), signAlg, signer.priv)
+		if err != nil {
+			return "", hdrAlg
+		}
+		return t, hdrAlg
+	}
+	present := func(class, note string, canonical bool, signer *keyEntry, iss, kid string) bool {
+		t, hdrAlg := tok(signer, iss, kid)
+		if t == "" {
+			return false
+		}
+		tc := tokCase{Class: class, Note: note, Token: t, Canonical: canonical, Attack: !canonical, Transport: g.transport(t), SignedBy: signer.Name, HdrAlg: hdrAlg}
+		_, acc := w.exec(st, inst, ks, &tc, sq)
+		return acc
+	}
+	var others []string
+	for _, iss := range inst.Spec.Issuers {
+		if iss != j.iss && tenantSets[iss] != "" {
+			others = append(others, iss)
+		}
+	}
+	twin := func(iss string) *keyEntry { // the other issuer's key carrying the same key id
+		for _, o := range w.sets[tenantSets[iss]].Keys {
+			if o.Kid == k.Kid {
+				return o
+			}
+		}
+		return nil
+	}
+	for _, o := range others {
+		present("cross-issuer", "empty cache: iss "+o+", kid "+k.Kid+", key of "+j.iss, false, k, o, k.Kid)
+	}
+	if !present("tenant-genuine", "first genuine token of "+j.iss+", kid "+k.Kid, true, k, j.iss, k.Kid) {
+		st.counters["tenant_sequence_genuine_token_not_accepted"]++
+		return
+	}
+	for _, o := range others {
+		present("cross-issuer", "key of "+j.iss+" used before: iss "+o+", kid "+k.Kid, false, k, o, k.Kid)
+		present("cross-issuer", "key of "+j.iss+" used before: iss "+o+", no kid", false, k, o, "")
+		st.counters["cross_issuer_tokens_after_genuine_token_of_key_owner"] += 2
+	}
+	for _, o := range others {
+		t := twin(o)
+		if t == nil {
+			continue
+		}
+		if present("tenant-genuine", "genuine token of "+o+" after the same kid "+k.Kid+" of "+j.iss+" was used", true, t, o, t.Kid) {
+			st.counters["genuine_tokens_of_two_issuers_sharing_a_kid_accepted"]++
+		}
+		present("cross-issuer", "keys of both used before: iss "+j.iss+", kid "+k.Kid+", key of "+o, false, t, j.iss, k.Kid)
+		present("cross-issuer", "keys of both used before: iss "+o+", kid "+k.Kid+", key of "+j.iss, false, k, o, k.Kid)
+		st.counters["cross_issuer_tokens_after_genuine_tokens_of_both_issuers"] += 2
+	}
+	present("tenant-genuine", "genuine token of "+j.iss+" at the end of the sequence", true, k, j.iss, k.Kid)
+	st.counters["tenant_sequences"]++
+	if j.full {
+		g.catalogue(k)
+		for i := range g.out {
+			w.exec(st, inst, ks, &g.out[i], sq)
+		}
+		st.counters["tenant_catalogues_with_warm_cache"]++
+	}
+}
+
 func (w *world) runJob(idx int, j job) {
+	if j.kind == "tenant" {
+		w.tenantJob(idx, j)
+		return
+	}
 	inst := w.insts[j.inst]
 	ks := w.sets[inst.Set]
 	rng := w.r.Stream(fmt.Sprintf("job-%d", idx))
@@ -729,13 +993,19 @@ func TestC05(t *testing.T) {
 		"factory (prototypes and rule-level WithConfig variants: issuers, audience, exact/hierarchic/wildcard scopes, allowed algorithms, leeway, " +
 		"validate_jwk/trust store, metadata endpoint, custom subject) against a local key-set server (kid/no kid, duplicate kids, alg absent/mismatching, x5c chains " +
 		"valid/expired/untrusted/no digitalSignature, empty/500/garbage). Per (authenticator, published key): baseline tokens, claim/time/issuer/audience/scope " +
-		"grids (canonical, both directions asserted), the attack catalogue, and for sampled valid tokens every byte position substituted/deleted/duplicated. " +
+		"grids (canonical, both directions asserted; numeric dates also at the int64 / time.Time / float64 representation limits), the attack catalogue, and for " +
+		"sampled valid tokens every byte position substituted/deleted/duplicated. Key-set URLs templated with the token issuer (in the path, in the query, " +
+		"in both, among other query parameters; cache default/5m/disabled): several trusted issuers publish different keys under the same key ids; per " +
+		"(instance, issuer, key) one sequence with a shared key cache: tokens naming another trusted issuer but signed with this issuer's key on the empty " +
+		"cache, after a genuine token, after genuine tokens of both issuers; then the catalogue with the warm cache. " +
 		"Oracle: independent stdlib verifier on the decoded header/payload/signature; observed accept => reference accept for every token; reference accept => " +
 		"observed accept only for canonical harness-built tokens (else inconclusive). A case is non-trivial when the token is a three-segment JWS whose header " +
 		"names a supported algorithm, i.e. key selection, alg agreement, signature or claims decide.")
 	r.Assume("keys, certificates and randomized signatures (PSS, ECDSA) are fresh per run; the list of cases (classes, positions, claim edits) is a function of (seed, tier)",
 		"a replay file is re-run by regenerating the run with its seed and tier (fresh keys), not byte-identically",
-		"the key-set endpoint is a local httptest server; no cache is put into the request context (key caching is C10/C11)",
+		"the key-set endpoint is a local httptest server; no cache is put into the request context (key caching is C10/C11), except for the sequences against "+
+			"key-set URLs templated with the token issuer: their requests share heimdall's in-memory cache (fresh per sequence), and the configured key-set "+
+			"endpoint of a token is the URL rendered with its iss claim",
 		"scope matching semantics follow the repository's unit tests/code comments (a granted scope covers its children); the hierarchic example in docs/configuration/types.adoc states the opposite direction",
 		"a JWK carrying an x5c chain is usable only if the chain validates (validate_jwk default true); the statement itself is silent about certificates",
 		"encoding-level variants that decode to the same header/payload/signature bytes (base64 trailing bits, CR/LF inside a segment, surrounding blanks) are the same token for the oracle",
@@ -783,7 +1053,7 @@ func TestC05(t *testing.T) {
 	// first use of the metadata endpoint initialises lazily (C17): do it once, sequentially
 	for _, inst := range w.insts {
 		tc := tokCase{Token: "x.y.z", Transport: "header"}
-		_, _ = inst.a.Execute(newCtx(&tc))
+		_, _ = inst.a.Execute(newCtx(&tc, nil))
 	}
 
 	// job list: function of (seed, tier)
@@ -840,8 +1110,19 @@ func TestC05(t *testing.T) {
 			}
 		}
 	}
+	// key-set URL templated with the token issuer: per (instance, trusted issuer, key of that issuer) one sequence with a
+	// key cache of its own; quick: the catalogue follows for every fourth of them, thorough: for all
+	nTenant := 0
+	for ii, inst := range w.tinsts {
+		for _, iss := range inst.Spec.Issuers {
+			for ki := range w.sets[tenantSets[iss]].Keys {
+				jobs = append(jobs, job{kind: "tenant", inst: ii, iss: iss, key: ki, full: r.Thorough() || (nTenant+ii)%4 == 0})
+				nTenant++
+			}
+		}
+	}
 	r.Set("jobs", len(jobs))
-	r.Set("authenticator_instances", len(w.insts))
+	r.Set("authenticator_instances", len(w.insts)+len(w.tinsts))
 
 	ch := make(chan int, len(jobs))
 	for i := range jobs {
@@ -874,6 +1155,7 @@ func TestC05(t *testing.T) {
 	r.Set("accept_reject_by_transport", st.byTransport)
 	r.Set("key_set_requests", w.jwksHits.Load())
 	r.Set("metadata_requests", w.metaHits.Load())
+	r.Set("key_set_requests_to_issuer_templated_urls", w.tenHits.Load())
 	r.Set("attacker_url_requests", w.evilHits.Load())
 	keys := make([]string, 0, len(st.counters))
 	for k := range st.counters {
@@ -900,7 +1182,7 @@ func TestC05(t *testing.T) {
 	minClass := int64(r.Pick(20, 100))
 	for _, c := range []string{"alg-none", "alg-hmac-public", "kid-swap", "embedded-key", "resign-other-key", "alg-switch-same-key",
 		"claim-edit-stale-signature", "header-edit-stale-signature", "signature-edit", "segments", "time-exp", "time-nbf", "issuer", "audience", "scope",
-		"mutation-substitute", "mutation-delete", "mutation-duplicate"} {
+		"mutation-substitute", "mutation-delete", "mutation-duplicate", "time-limits", "cross-issuer"} {
 		r.Require("rejected_"+c, int64(st.matrix[c]["ref_reject/obs_reject"]), minClass)
 	}
 	var canonAccepted int64
@@ -909,5 +1191,9 @@ func TestC05(t *testing.T) {
 	}
 	r.Require("canonical_tokens_accepted", canonAccepted, int64(r.Pick(1500, 8000)))
 	r.Require("subjects_checked", int64(st.counters["subjects_checked"]), int64(r.Pick(1500, 8000)))
+	r.Require("tenant_sequences", int64(st.counters["tenant_sequences"]), int64(nTenant*3/4))
+	r.Require("tenant_genuine_tokens_accepted", int64(st.matrix["tenant-genuine"]["ref_accept/obs_accept"]), int64(nTenant))
+	r.Require("genuine_tokens_of_two_issuers_sharing_a_kid_accepted", int64(st.counters["genuine_tokens_of_two_issuers_sharing_a_kid_accepted"]), int64(nTenant/2))
+	r.Require("cross_issuer_tokens_after_genuine_token_of_key_owner", int64(st.counters["cross_issuer_tokens_after_genuine_token_of_key_owner"]), int64(nTenant))
 	r.End()
 }
